@@ -13,7 +13,7 @@ PROPERTY = "C20"
 CLAUSES = ["C20.same", "C20.notearly", "C20.strict", "C20.clock"]
 RULE = ("every kernel program of <= D instructions x factor {0.5,1,2} x initial_time {0,5} x strict {T,F} x every wall-clock "
         "behaviour with <= B deviations: compute time consumed before a step in {0, f/2, f, f+2^-10, 2f}, each sleep(d) "
-        "returning after {d, d/2, d+f/4}, sync() before any step; non-trivial = at least one clock deviation or a strict-mode "
+        "returning after {d, d/2, d+f/4}, sync() before any of the first steps and after simulated time has advanced; non-trivial = at least one clock deviation or a strict-mode "
         "lag within 2^-10 of the limit; distinct = distinct (program, clock behaviour, log)")
 ASSUMPTIONS = [
     "onl.sim.rt.monotonic/sleep and time.monotonic/time.sleep are replaced by a virtual clock owned by the harness; a run in "
@@ -29,7 +29,7 @@ def plan(tier, seed):
     for factor in (0.5, 1, 2):
         for init in (0, 5):
             for strict in (1, 0):
-                if quick and init == 5 and factor != 1:
+                if quick and init == 5 and factor == 1:
                     continue
                 cfgs.append(dict(depth=3 if quick else 4, factor=factor, init=init, strict=strict, syncsteps=3 if quick else 6))
     return {"cfgs": cfgs, "budget": 2 if quick else 3,
@@ -72,12 +72,18 @@ def execute(ch, cfg):
         rec = Rec(ch)
         k = KC.K(rec, OPS, cfg["depth"], env=env, reaction=False)
         seen = 0
+        last_offer_now = init
+        offers_late = 0
         compute = [0, f / 2, f, f + 2.0 ** -10, 2 * f]
         near = False
         while env.peek() < INF:
             c = ch.choose(len(compute), lambda c: "wall time consumed before this step: %r" % compute[c])
             clock["wall"] += compute[c]
-            if k.stepno < cfg.get("syncsteps", 4) and ch.choose(2, lambda c: "sync() before this step" if c else "no sync"):
+            offer = k.stepno < cfg.get("syncsteps", 4) or (env.now > last_offer_now and offers_late < 2)
+            if offer and k.stepno >= cfg.get("syncsteps", 4):
+                offers_late += 1
+            last_offer_now = env.now
+            if offer and ch.choose(2, lambda c: "sync() before this step" if c else "no sync"):
                 env.sync()
                 real_start = clock["wall"]
             due_wall = real_start + (env.peek() - init) * f
